@@ -721,6 +721,8 @@ pub fn run(which: Which, tier: &str, seed: u64, out: &str) {
                 .set("of_which_in_check", tq.3)
                 .set("moves_in_checked_lists", tq.1)
                 .set("node_cap_per_start_state", tq.4)
+                .set("members_of_classes_F1_F4_thorough_F3_with_something_to_examine_used_as_starts", CLASS_STARTS.load(std::sync::atomic::Ordering::Relaxed))
+                .set("long_forcing_lines", J::obj().set("starts_within_two_plies_of_the_middlegame_roots", DEEP_STARTS.load(std::sync::atomic::Ordering::Relaxed)).set("deepest_nesting_of_quiescence_nodes_reached_plies", DEEPEST_QPLY.load(std::sync::atomic::Ordering::Relaxed)).set("children_that_returned_without_an_event_and_had_nothing_to_examine", SILENT_EMPTY.load(std::sync::atomic::Ordering::Relaxed)).set("rule", "every child a node searched must itself show up as a node (choose a move list, or leave by one of the marked exits) unless the clock had expired or the searcher had expanded that position before; a child with something to examine that returns without any of this examined nothing"))
                 .set("nodes_whose_searched_moves_were_judged", EXAMINED_NODES.load(std::sync::atomic::Ordering::Relaxed))
                 .set("quiescence_searches_traced_after_a_main_search_of_the_same_state", AFTER_SEARCH.load(std::sync::atomic::Ordering::Relaxed))
                 .set("quiescence_searches_traced_with_a_game_history_in_which_every_successor_occurred_twice", WITH_HISTORY.load(std::sync::atomic::Ordering::Relaxed))
@@ -828,20 +830,19 @@ fn trace_part(mg: &MoveGenerator, rep: &Report, roots: &[roots::Root], thorough:
     let moves = AtomicU64::new(0);
     let checks = AtomicU64::new(0);
     let exam_nodes = AtomicU64::new(0);
-    crate::par::par_map_init(
-        &starts,
-        || None::<Searcher>,
-        |s, b| {
+    let root_missing = AtomicU64::new(0);
+    let visit = |s: &mut Option<Searcher>, b: &Board, phases: u8, cap: u64| {
             if rep.saturated() {
                 return;
             }
             if s.is_none() {
                 *s = Some(Searcher::new());
+                EXPANDED.with(|e| e.borrow_mut().clear());
             }
             // phase 0: quiescence from this state as it is; phase 1: the same after a main search of
             // the state on the same searcher (table, killers and history filled by it): what an
             // earlier search left behind must not change which moves a quiescence node searches
-            for phase in 0..3 {
+            for phase in 0..phases {
             if phase == 2 {
                 if rep.saturated() {
                     return;
@@ -894,6 +895,78 @@ fn trace_part(mg: &MoveGenerator, rep: &Report, roots: &[roots::Root], thorough:
             let events = crate::search::verif::take_quiescence_events();
             crate::search::verif::set_quiescence_trace(false);
             if r.is_ok() {
+                // the start state itself is a quiescence node with the full window: nothing can cut
+                // it off before it looks at its moves. If it has moves to examine (the rules model
+                // says so) and never reached the point where a node chooses its list, it examined none.
+                let root_traced = trace.first().map(|t| eng::key_of(&t.0) == eng::key_of(b)).unwrap_or(false);
+                if !root_traced {
+                    if let Ok(p) = eng::pos_of(b) {
+                        let in_check = p.in_check(p.stm);
+                        let want = if in_check { p.legal_moves() } else { p.tactical_moves() };
+                        if !want.is_empty() {
+                            root_missing.fetch_add(1, Ordering::Relaxed);
+                            rep.violation(
+                                format!("C17 fen={} root-not-expanded", p.fen4()),
+                                format!(
+                                    "quiescence search of {:?} with the full window ({}): the search returned without choosing any move list for this position, i.e. it examined none of [{}]",
+                                    p.fen4(),
+                                    if in_check { "side to move in check: every legal move is to be examined" } else { "not in check: captures, promotions and checks are to be examined" },
+                                    eng::moves_text(&want)
+                                ),
+                                vec!["c17-root-one".to_string(), "--fen".into(), eng::fen_of(b), "--cap".into(), cap.to_string(), "--after-search".into(), phase.to_string()],
+                                J::Null,
+                            );
+                        }
+                    }
+                }
+                // a child the parent searched that came back without a single event took a way out
+                // that the search does not have (every way out of a node is marked): if the clock
+                // had not expired, the searcher had never expanded that position before and the
+                // position has something to examine, it examined nothing of it
+                if phase == 0 {
+                    let stopped = crate::timer::verif::first_stop().is_some() || events.iter().any(|e| e.0 == crate::search::verif::Q_EXIT_STOPPED);
+                    let (silent, deepest) = silent_children(&trace, &events);
+                    DEEPEST_QPLY.fetch_max(deepest as u64, Ordering::Relaxed);
+                    if !stopped {
+                        for (i, m, child) in silent {
+                            let ck = eng::key_of(&child);
+                            if EXPANDED.with(|e| e.borrow().contains(&fingerprint(&ck))) || trace.iter().any(|t| eng::key_of(&t.0) == ck) {
+                                continue;
+                            }
+                            let cp = match eng::pos_of(&child) {
+                                Ok(p) => p,
+                                Err(_) => continue,
+                            };
+                            let in_check = cp.in_check(cp.stm);
+                            let want = if in_check { cp.legal_moves() } else { cp.tactical_moves() };
+                            if want.is_empty() {
+                                SILENT_EMPTY.fetch_add(1, Ordering::Relaxed);
+                                continue;
+                            }
+                            rep.violation(
+                                format!("C17 start={} node={} child-not-expanded", eng::fen_of(b), cp.fen4()),
+                                format!(
+                                    "quiescence search from {:?}: the node {:?} searched {} and the position after it, {:?} ({}), came back without choosing a move list or taking any of the search's exits (no cut-off, no stand-pat, clock not expired, never expanded before): none of its [{}] was examined",
+                                    eng::fen_of(b), eng::fen_of(&trace[i].0), eng::mv_of(&m).uci(), cp.fen4(),
+                                    if in_check { "side to move in check" } else { "not in check" },
+                                    eng::moves_text(&want)
+                                ),
+                                vec!["c17-silent-one".to_string(), "--fen".into(), eng::fen_of(b), "--node".into(), cp.fen4(), "--cap".into(), cap.to_string()],
+                                J::Null,
+                            );
+                            break;
+                        }
+                    }
+                    EXPANDED.with(|e| {
+                        let mut e = e.borrow_mut();
+                        for t in &trace {
+                            e.insert(fingerprint(&eng::key_of(&t.0)));
+                        }
+                    });
+                    if EXPANDED.with(|e| e.borrow().len()) > 4_000_000 {
+                        *s = None; // a new searcher (and a new memory of what it expanded) for the next start
+                    }
+                }
                 // which moves each node really searched (the list above is what it chose)
                 let (judged, problems) = examined_problems(&trace, &events);
                 exam_nodes.fetch_add(judged, Ordering::Relaxed);
@@ -957,11 +1030,126 @@ fn trace_part(mg: &MoveGenerator, rep: &Report, roots: &[roots::Root], thorough:
                 }
             }
             }
-        },
-    );
+            if phases > 1 {
+                *s = None;
+            }
+    };
+    crate::par::par_map_init(&starts, || None::<Searcher>, |s, b| visit(s, b, 3, cap));
+    // long forcing lines: from every state within two plies of the middlegame roots the quiescence
+    // search runs with a node cap large enough to follow its longest lines to their end (dozens of
+    // plies past the horizon), where a cap on the number of plies would show
+    {
+        let deep_cap: u64 = if thorough { 200_000 } else { 30_000 };
+        let mut deep_starts: Vec<Board> = Vec::new();
+        let mut seen_deep = HashSet::new();
+        for r in roots {
+            let middlegame = (r.name.starts_with("perft position") || r.name.starts_with("italian") || r.name.starts_with("open sicilian")) && !r.name.ends_with("[mirrored]");
+            if !middlegame {
+                continue;
+            }
+            for b in crate::props::c05::neighbourhood(mg, rep, &r.pos.fen(0, 1), 2) {
+                if seen_deep.insert(eng::key_of(&b)) {
+                    deep_starts.push(b);
+                }
+            }
+        }
+        crate::par::par_map_init(&deep_starts, || None::<Searcher>, |s, b| visit(s, b, 1, deep_cap));
+        DEEP_STARTS.store(deep_starts.len() as u64, Ordering::Relaxed);
+        eprintln!("[C17] long forcing lines: {} starts with a cap of {} nodes, deepest quiescence nesting so far {} plies ({:.1}s)", deep_starts.len(), deep_cap, DEEPEST_QPLY.load(Ordering::Relaxed), rep.elapsed());
+    }
+    // complete small-material classes as starts (as they are, no earlier search): endings with a
+    // lone minor piece, promotions with and without capture, castling; a search that decides such
+    // a position without looking at its moves must still look at them
+    let mut class_starts = 0u64;
+    for class in roots::classes(if thorough { "thorough" } else { "quick" }) {
+        if !["F1", "F3", "F4"].contains(&class.name) || (class.name == "F3" && !thorough) || rep.saturated() {
+            continue;
+        }
+        let counts: Vec<u64> = crate::par::par_map_init(
+            &class.units,
+            || None::<Searcher>,
+            |s, u| {
+                let mut n = 0u64;
+                (class.gen)(*u, &mut |p: Pos| {
+                    if !p.in_check(p.stm) && p.tactical_moves().is_empty() {
+                        return; // nothing to examine: nothing to judge
+                    }
+                    if let Some(b) = setup(&p, rep, "C17") {
+                        n += 1;
+                        visit(s, &b, 1, cap);
+                    }
+                });
+                n
+            },
+        );
+        class_starts += counts.iter().sum::<u64>();
+        eprintln!("[C17] quiescence trace from class {}: {} starts ({:.1}s)", class.name, counts.iter().sum::<u64>(), rep.elapsed());
+    }
+    CLASS_STARTS.store(class_starts, Ordering::Relaxed);
     EXAMINED_NODES.store(exam_nodes.load(Ordering::Relaxed), Ordering::Relaxed);
     (nodes.load(Ordering::Relaxed), moves.load(Ordering::Relaxed), starts.len() as u64, checks.load(Ordering::Relaxed), cap)
 }
+
+/// Children of traced nodes that produced no event at all: the parent searched the move, but the
+/// child never reached the point where a quiescence node chooses its move list, nor any of its
+/// exits. Returns (parent node index, move, child board) for each, and the deepest nesting seen.
+pub fn silent_children(trace: &[(Board, bool, Vec<crate::moves::Move>)], events: &[(u8, Option<crate::moves::Move>)]) -> (Vec<(usize, crate::moves::Move, Board)>, usize) {
+    use crate::search::verif::{Q_ENTER, Q_EXAMINE};
+    let mut out = Vec::new();
+    let mut stack: Vec<usize> = Vec::new();
+    let mut next = 0usize;
+    let mut pending: Option<(usize, crate::moves::Move)> = None;
+    let mut deepest = 0usize;
+    for (kind, mv) in events {
+        if *kind != Q_ENTER {
+            if let Some((i, m)) = pending.take() {
+                out.push((i, m, trace[i].0.clone_with_move(&m)));
+            }
+        } else {
+            pending = None;
+        }
+        if *kind == Q_ENTER {
+            if next >= trace.len() {
+                return (Vec::new(), deepest);
+            }
+            stack.push(next);
+            deepest = deepest.max(stack.len());
+            next += 1;
+        } else if *kind == Q_EXAMINE {
+            match (stack.last(), mv) {
+                (Some(top), Some(m)) => pending = Some((*top, *m)),
+                _ => return (Vec::new(), deepest),
+            }
+        } else if stack.pop().is_none() {
+            return (Vec::new(), deepest);
+        }
+    }
+    (out, deepest)
+}
+
+thread_local! {
+    /// Fingerprints of the positions this thread's phase-0 searcher has expanded as quiescence
+    /// nodes since it was created (a position met again may legitimately be answered from memory)
+    static EXPANDED: std::cell::RefCell<std::collections::HashSet<u64>> = std::cell::RefCell::new(std::collections::HashSet::new());
+}
+
+fn fingerprint(k: &eng::EKey) -> u64 {
+    let mut h = k.colors[0].wrapping_mul(0x9E3779B97F4A7C15) ^ k.colors[1].rotate_left(23);
+    for p in k.pieces.iter() {
+        h = (h ^ *p).wrapping_mul(0xC2B2AE3D27D4EB4F).rotate_left(31);
+    }
+    h ^ ((k.stm as u64) << 1) ^ ((k.castle as u64) << 8) ^ ((k.ep as u64) << 16)
+}
+
+/// Starts of the long-forcing-lines stage
+pub static DEEP_STARTS: std::sync::atomic::AtomicU64 = std::sync::atomic::AtomicU64::new(0);
+/// Deepest nesting of quiescence nodes seen in any traced search of the last run
+pub static DEEPEST_QPLY: std::sync::atomic::AtomicU64 = std::sync::atomic::AtomicU64::new(0);
+/// Children that returned without any event and had nothing to examine / something to examine
+pub static SILENT_EMPTY: std::sync::atomic::AtomicU64 = std::sync::atomic::AtomicU64::new(0);
+
+/// Members of complete material classes used as quiescence trace starts
+pub static CLASS_STARTS: std::sync::atomic::AtomicU64 = std::sync::atomic::AtomicU64::new(0);
 
 /// Quiescence searches traced with a game history in which every successor occurred twice
 pub static WITH_HISTORY: std::sync::atomic::AtomicU64 = std::sync::atomic::AtomicU64::new(0);
@@ -1039,6 +1227,71 @@ pub fn examined_problems(trace: &[(Board, bool, Vec<crate::moves::Move>)], event
         }
     }
     (judged, problems)
+}
+
+/// Replay of "the start state was never expanded": the same traced quiescence search again.
+pub fn replay_root_one(start_fen: &str, cap: u64, phase: u8) -> i32 {
+    use crate::search::Searcher;
+    let p = Pos::from_fen(start_fen).unwrap();
+    let b = eng::board_of(&p).unwrap();
+    crate::timer::verif::set_node_clock(Some(1));
+    let mut s = Searcher::new();
+    if phase == 1 {
+        let _ = guard(|| s.find_best_move(&b, 2, Some(std::time::Duration::from_millis(2500))));
+        crate::timer::verif::set_node_clock(Some(1));
+    }
+    if phase == 2 {
+        let mg = MoveGenerator::new();
+        for m in mg.generate_moves(&b) {
+            let c = b.clone_with_move(&m);
+            s.push_position(&c);
+            s.push_position(&c);
+        }
+    }
+    crate::search::verif::set_quiescence_trace(true);
+    let r = guard(|| s.verif_quiesce(&b, Some(std::time::Duration::from_millis(cap))));
+    let trace = crate::search::verif::take_quiescence_trace();
+    let _ = crate::search::verif::take_quiescence_events();
+    crate::search::verif::set_quiescence_trace(false);
+    let in_check = p.in_check(p.stm);
+    let want = if in_check { p.legal_moves() } else { p.tactical_moves() };
+    let root_traced = trace.first().map(|t| eng::key_of(&t.0) == eng::key_of(&b)).unwrap_or(false);
+    if r.is_ok() && !root_traced && !want.is_empty() {
+        println!("REPLAY-VIOLATION C17 fen={} root-not-expanded :: the quiescence search returned without choosing a move list for its start state", p.fen4());
+        return 1;
+    }
+    println!("REPLAY-OK C17 root of {} expanded", start_fen);
+    0
+}
+
+/// Replay of "a searched child came back without any event": fresh searcher, same traced search.
+pub fn replay_silent_one(start_fen: &str, node_fen4: &str, cap: u64) -> i32 {
+    use crate::search::Searcher;
+    let p = Pos::from_fen(start_fen).unwrap();
+    let b = eng::board_of(&p).unwrap();
+    crate::timer::verif::set_node_clock(Some(1));
+    let mut s = Searcher::new();
+    crate::search::verif::set_quiescence_trace(true);
+    let r = guard(|| s.verif_quiesce(&b, Some(std::time::Duration::from_millis(cap))));
+    let trace = crate::search::verif::take_quiescence_trace();
+    let events = crate::search::verif::take_quiescence_events();
+    crate::search::verif::set_quiescence_trace(false);
+    let stopped = crate::timer::verif::first_stop().is_some() || events.iter().any(|e| e.0 == crate::search::verif::Q_EXIT_STOPPED);
+    if r.is_ok() && !stopped {
+        let (silent, _) = silent_children(&trace, &events);
+        for (_, _, child) in silent {
+            if let Ok(cp) = eng::pos_of(&child) {
+                let want = if cp.in_check(cp.stm) { cp.legal_moves() } else { cp.tactical_moves() };
+                let before = trace.iter().any(|t| eng::key_of(&t.0) == eng::key_of(&child));
+                if cp.fen4() == node_fen4 && !want.is_empty() && !before {
+                    println!("REPLAY-VIOLATION C17 start={} node={} child-not-expanded :: searched by its parent, came back without any event, has [{}] to examine", start_fen, node_fen4, eng::moves_text(&want));
+                    return 1;
+                }
+            }
+        }
+    }
+    println!("REPLAY-OK C17 every searched child of the quiescence search from {} shows up as a node", start_fen);
+    0
 }
 
 pub fn replay_exam_one(start_fen: &str, node_fen: &str, cap: u64, phase: u8) -> i32 {
